@@ -1625,15 +1625,29 @@ class FormattingHandler(__import__("logging").Handler):
 
 
 class debug_logging:
-    """as a host application with logging configured at DEBUG and a handler that formats each record"""
+    """as a host application with logging configured at DEBUG and a handler that formats each record; `named`: DEBUG only
+    on the library's own loggers (`chuk_mcp` and everything below it), the root logger stays at WARNING"""
+
+    def __init__(self, named=False):
+        self.named = named
 
     def __enter__(self):
         import logging
 
         root = logging.getLogger()
         self.prev = (root.manager.disable, root.level, list(root.handlers))
+        self.named_prev = None
         root.handlers[:] = [FormattingHandler()]
-        root.setLevel(logging.DEBUG)
+        if self.named:
+            root.setLevel(logging.WARNING)
+            lib = logging.getLogger("chuk_mcp")
+            self.named_prev = (lib.level, {n: lg.level for n, lg in logging.root.manager.loggerDict.items()
+                                           if n.startswith("chuk_mcp") and isinstance(lg, logging.Logger)})
+            lib.setLevel(logging.DEBUG)
+            for n in self.named_prev[1]:
+                logging.getLogger(n).setLevel(logging.DEBUG)
+        else:
+            root.setLevel(logging.DEBUG)
         logging.disable(logging.NOTSET)
 
     def __exit__(self, *exc):
@@ -1643,6 +1657,10 @@ class debug_logging:
         logging.disable(self.prev[0])
         root.setLevel(self.prev[1])
         root.handlers[:] = self.prev[2]
+        if self.named_prev is not None:
+            logging.getLogger("chuk_mcp").setLevel(self.named_prev[0])
+            for n, lv in self.named_prev[1].items():
+                logging.getLogger(n).setLevel(lv)
         return False
 
 
@@ -1686,7 +1704,7 @@ def run_case(case):
     os.environ.update(env)
     try:
         if case.get("debug_log"):
-            with debug_logging():
+            with debug_logging(named=(case["debug_log"] == "named")):
                 return _run_repeated(case)
         return _run_repeated(case)
     finally:
